@@ -1279,8 +1279,12 @@ class Pregex():
         Returns the string representation of this instance's \
         underlying pattern in a printable format.
         '''
-        # Replace any quadraple backslashes.
-        return _re.sub(r"\\\\", r"\\", repr(self.__pattern)[1:-1])
+        # Spell out every non-printable character, whether it stands by itself or is escaped by a backslash,
+        # by means of the escape sequence that "repr" gives it (which RegEx reads the same way).
+        def printable(match: _re.Match) -> str:
+            c = match.group(0)[-1]
+            return match.group(0) if c.isprintable() else repr(c)[1:-1]
+        return _re.sub(r"\\?.", printable, self.__pattern, flags=_re.DOTALL)
         
 
     def __add__(self, pre: _Union['Pregex', str]) -> 'Pregex':
